@@ -4,6 +4,7 @@ impl UpdateFromDownlink<Ext> for Plane {
     fn update_from_downlink(&mut self, dl: &Ext) {
         if dl.icao.is_some() {
             self.last_type_code = dl.message_type.0;
+            self.capability.0 = dl.capability;
             match dl.message_type.0 {
                 1..=4 => {
                     self.amend_from_ext_1_4(dl);
